@@ -10,11 +10,11 @@ import (
 
 func Run(c *common.Ctx) error {
 	cfgs := []hist.Config{
-		{PageSize: 512, Regime: 0, AllowWAL: false, AllowDrop: true},
+		{PageSize: 512, Regime: 0, AllowWAL: false, AllowDrop: true, Clients: true},
 		{PageSize: 512, Regime: 1, AllowWAL: false, AllowDrop: false, CommitFaults: true},
 		{PageSize: 512, Regime: 2, AllowWAL: false, AllowDrop: true},
 		{PageSize: 4096, Regime: 0, AllowWAL: false, AllowDrop: true, CommitFaults: true},
-		{PageSize: 1024, Regime: 1, AllowWAL: false, AllowDrop: false},
+		{PageSize: 1024, Regime: 1, AllowWAL: false, AllowDrop: false, Clients: true},
 		{PageSize: 65536, Regime: 0, AllowWAL: false, AllowDrop: true},
 	}
 	if c.Thorough() {
